@@ -192,6 +192,13 @@ func verifyFunctionPass(p *Program, db *ContractDB, fc *FnContract, preRegions m
 		}
 		env.Vars[l.Label] = v
 	}
+	x.topGhosts = map[string]Val{}
+	for _, g := range fc.Ghosts {
+		x.topGhosts[g[0]] = env.Vars[g[0]]
+	}
+	for _, l := range fc.Lets {
+		x.topGhosts[l.Label] = env.Vars[l.Label]
+	}
 	var reqs []Term
 	for _, r := range fc.Requires {
 		t, err := env.Bool(r.Expr)
